@@ -619,12 +619,30 @@ impl FatVolume {
                             next: sequence - 1,
                         }
                     }
-                    (false, 0x01, SeqState::Remaining { csum, next }) if next == sequence => {
+                    // Every fragment carries its own copy of the checksum: one that
+                    // differs from the run's belongs to some other name.
+                    (
+                        false,
+                        0x01,
+                        SeqState::Remaining {
+                            csum: run_csum,
+                            next,
+                        },
+                    ) if next == sequence && run_csum == csum => {
                         lfn_buffer.push(&buffer);
                         SeqState::Complete { csum }
                     }
-                    (false, sequence, SeqState::Remaining { csum, next })
-                        if sequence >= 0x01 && sequence < 0x14 && next == sequence =>
+                    (
+                        false,
+                        sequence,
+                        SeqState::Remaining {
+                            csum: run_csum,
+                            next,
+                        },
+                    ) if sequence >= 0x01
+                        && sequence < 0x14
+                        && next == sequence
+                        && run_csum == csum =>
                     {
                         lfn_buffer.push(&buffer);
                         SeqState::Remaining {
